@@ -3,6 +3,7 @@ package main
 import (
 	"fmt"
 	"go/ast"
+	"go/token"
 )
 
 // indexByDateShape checks the frame around the loop body (whose verdict per shard is the regenerated indexByDateTakes): IndexByDate is
@@ -68,20 +69,69 @@ func temporallyCompatibleShape(rel string) func() string {
 func windowVerbatimShape() func() string {
 	return func() string {
 		cfg := mustFunc("trillian/ctfe/config.go", "ValidateLogConfig")
-		want := map[string]string{"*vCfg.NotAfterStart": "start.AsTime()", "*vCfg.NotAfterLimit": "limit.AsTime()"}
-		seen := map[string]int{}
+		// what the two proto fields are called locally (`start, limit := cfg.NotAfterStart, cfg.NotAfterLimit`)
+		protoOf := map[string]string{"cfg.NotAfterStart": "NotAfterStart", "cfg.NotAfterLimit": "NotAfterLimit"}
+		defs := map[string][]ast.Expr{} // local -> right-hand sides of its definitions / assignments
 		for _, st := range findStmts(cfg, func(s ast.Stmt) bool { _, ok := s.(*ast.AssignStmt); return ok }) {
 			a := st.(*ast.AssignStmt)
-			if len(a.Lhs) == 1 && len(a.Rhs) == 1 {
-				if w, ok := want[src(a.Lhs[0])]; ok {
-					if src(a.Rhs[0]) != w {
-						panic(bail{"trillian/ctfe/config.go: the configured bound is no longer stored verbatim: " + src(a)})
+			if len(a.Lhs) == len(a.Rhs) {
+				for i := range a.Lhs {
+					if id, ok := a.Lhs[i].(*ast.Ident); ok {
+						defs[id.Name] = append(defs[id.Name], a.Rhs[i])
 					}
-					seen[src(a.Lhs[0])]++
 				}
 			}
 		}
-		if seen["*vCfg.NotAfterStart"] != 1 || seen["*vCfg.NotAfterLimit"] != 1 {
+		for name, ds := range defs {
+			if len(ds) == 1 {
+				if f, ok := protoOf[norm(src(ds[0]))]; ok {
+					protoOf[name] = f
+				}
+			}
+		}
+		// asTimeOf: e is `<proto field>.AsTime()`, possibly through one single-assignment local
+		var asTimeOf func(e ast.Expr, depth int) string
+		asTimeOf = func(e ast.Expr, depth int) string {
+			if c, ok := e.(*ast.CallExpr); ok && len(c.Args) == 0 {
+				if sel, ok := c.Fun.(*ast.SelectorExpr); ok && sel.Sel.Name == "AsTime" {
+					return protoOf[norm(src(sel.X))]
+				}
+			}
+			if id, ok := e.(*ast.Ident); ok && depth < 2 && len(defs[id.Name]) == 1 {
+				return asTimeOf(defs[id.Name][0], depth+1)
+			}
+			return ""
+		}
+		stored := map[string]int{}
+		for _, st := range findStmts(cfg, func(s ast.Stmt) bool { _, ok := s.(*ast.AssignStmt); return ok }) {
+			a := st.(*ast.AssignStmt)
+			if len(a.Lhs) != 1 || len(a.Rhs) != 1 {
+				continue
+			}
+			l := norm(src(a.Lhs[0]))
+			for _, f := range []string{"NotAfterStart", "NotAfterLimit"} {
+				switch l {
+				case "*vCfg." + f: // the value is written through the pointer
+					if asTimeOf(a.Rhs[0], 0) != f {
+						panic(bail{"trillian/ctfe/config.go: the configured bound is no longer stored verbatim: " + src(a)})
+					}
+					stored[f]++
+				case "vCfg." + f: // the pointer is set: to fresh storage (filled by the case above) or to a local holding the value
+					r := a.Rhs[0]
+					if u, ok := r.(*ast.UnaryExpr); ok && u.Op == token.AND {
+						if _, isLit := u.X.(*ast.CompositeLit); isLit {
+							continue
+						}
+						if asTimeOf(u.X, 0) == f {
+							stored[f]++
+							continue
+						}
+					}
+					panic(bail{"trillian/ctfe/config.go: the configured bound is no longer stored verbatim: " + src(a)})
+				}
+			}
+		}
+		if stored["NotAfterStart"] != 1 || stored["NotAfterLimit"] != 1 {
 			panic(bail{"trillian/ctfe/config.go: assignments of the NotAfter bounds not found exactly once each"})
 		}
 		inst := mustFunc("trillian/ctfe/instance.go", "setUpLogInfo")
